@@ -1,4 +1,4 @@
-import JaqalProofs.Lemmas.LetText
+import JaqalProofs.Lemmas.LetTextFinal
 import JaqalProofs.Props.ParsedC05
 /-!
 # C05 from texts — the open finding `defaulted-stop-frozen` as a machine-checked refutation
@@ -19,6 +19,11 @@ while building, so the built circuit has forgotten that the stop of `c` depends 
                       `[r[1], r[2], r[3]]`; the registers `r, a, c` denote `r[0..5], r[0..3], [r[1]]` resp. `…, r[1..3]`.
                       Same on the real code (`/venv/bin/python`, see `harness/extra_c05.py`).
 * `C05_text_refuted`  `¬ C05_text_full`.
+* `C05_text_partial`  the clause PROVED under the decidable side condition `NoFrozenStop ov sx` (no alias declaration with a
+                      defaulted stop over a source that depends on an overridden let) — all configurations, texts, overrides;
+                      `C05_text_builder`: there the rewritten tree builds to the re-valued circuit `revalC ov c`.
+* `C05_text_example`  non-vacuity: `… map a r[0:n]; map c a[1:n]; foo c` (explicit stop) with `n = 4` satisfies the side
+                      condition (the witness does not), everything succeeds, both sides apply `foo` to `[r[1], r[2], r[3]]`.
 -/
 set_option linter.unusedVariables false
 namespace Jaqal.FillIn
@@ -127,7 +132,114 @@ theorem C05_text_refuted : ¬ C05_text_full := by
   revert hs
   decide
 
+/-! ### The positive part
+
+**The side condition** `NoFrozenStop ov sx` (`Lemmas/LetTextFinal.lean`; decidable, on the tree of the text): walking the
+header, keep the set `dep` of names whose object may depend on an overridden let — the overridden lets themselves, and every
+register / alias one of whose components (size, source, index, bound) is in `dep` (`Lemmas/LetTextTop.lean: depStep`); the
+condition fails at the first `map c a[k:]` / `map c a[:]` / `map c a[k::s]` (stop not written) whose source `a` is in `dep`
+(`frozenAt`).  Sufficient, not necessary: a FUNDAMENTAL register sized by an overridden let is in `dep` although `build_map`
+then stores the stop symbolically (the `Constant` itself), so `let n 4; register r[n]; map a r[1:]` is excluded although
+harmless; the shapes that really fail have an ALIAS as source (`harness/extra_c05.py: frozen_default_shape`). -/
+
+theorem parseProgram_of {cfg : Config} {txt : String} {sx : Sx} {c : Circuit} (hp : Parser.parseText txt = .ok sx)
+    (hb : parseBuild cfg sx = .ok c) : Pipeline.parseProgram cfg txt = .ok c := by
+  unfold Pipeline.parseProgram Pipeline.parseSx
+  rw [hp]
+  exact hb
+
+/-- **the builder half**: under the side condition the circuit built from the rewritten tree is the circuit built from the
+tree with the declared values of the overridden lets replaced (`revalC`, `Lemmas/LetTextSem.lean`) — every configuration,
+every text, every override dictionary; no bound on sizes or depths.  (`Lemmas/LetTextBuild.lean: stmt_rel`,
+`LetTextTop.lean: header_rel`, `LetTextCircuit.lean: stepTail_rel, circuitLoop_rel`, `LetTextFinal.lean: parseBuild_reval`;
+the memo table is switched off by `C07_memo_transparent`.) -/
+theorem C05_text_builder (cfg : Config) (txt : String) (ov : List (String × Num)) (sx : Sx) (c c' : Circuit)
+    (hp : Parser.parseText txt = .ok sx) (hn : NoFrozenStop ov sx = true) (hb : parseBuild cfg sx = .ok c)
+    (hb' : parseBuild cfg (rewriteLets ov sx) = .ok c') : c' = revalC ov c :=
+  parseBuild_reval ov cfg txt sx c c' hp hn hb hb'
+
+/-- **C05_text_partial — C05 from texts, outside the finding.**  The clause of `C05_text_full` holds under `NoFrozenStop`:
+for every configuration, text, override dictionary: if the tree of the text has no alias declaration with a defaulted stop
+over a source that depends on an overridden let, both trees build and both `fill_in_let`s succeed, then the filled circuit
+means what the program with the lets rewritten means (equal as results: both defined and equal, or both the same error). -/
+theorem C05_text_partial (cfg : Config) (txt : String) (ov : List (String × Num)) (sx : Sx) (c c' f f' : Circuit)
+    (hp : Parser.parseText txt = .ok sx) (hn : NoFrozenStop ov sx = true) (hb : parseBuild cfg sx = .ok c)
+    (hb' : parseBuild cfg (rewriteLets ov sx) = .ok c') (hf : fillInLet ov c = .ok f) (hf' : fillInLet [] c' = .ok f') :
+    meaning [] f = meaning [] f' := by
+  have hw := (Passes.parsed_legal cfg txt c (parseProgram_of hp hb)).wf2
+  have := C05_text_builder cfg txt ov sx c c' hp hn hb hb'
+  subst this
+  exact text_clause_of_reval ov hw hf hf'
+
+/-- … and the registers: the second circuit's registers are the re-valued registers of the first -/
+theorem C05_text_partial_registers (cfg : Config) (txt : String) (ov : List (String × Num)) (sx : Sx) (c c' : Circuit)
+    (hp : Parser.parseText txt = .ok sx) (hn : NoFrozenStop ov sx = true) (hb : parseBuild cfg sx = .ok c)
+    (hb' : parseBuild cfg (rewriteLets ov sx) = .ok c') : c'.registers = c.registers.map (reval ov) := by
+  rw [C05_text_builder cfg txt ov sx c c' hp hn hb hb']
+  rfl
+
+/-- without any side condition, for ONE program: whenever the rewritten tree builds to the re-valued circuit (a decidable
+fact about the two built circuits), the clause holds -/
+theorem C05_text_of_reval (cfg : Config) (txt : String) (ov : List (String × Num)) (sx : Sx) (c f f' : Circuit)
+    (hp : Parser.parseText txt = .ok sx) (hb : parseBuild cfg sx = .ok c)
+    (hf : fillInLet ov c = .ok f) (hf' : fillInLet [] (revalC ov c) = .ok f') : meaning [] f = meaning [] f' :=
+  text_clause_of_reval ov (Passes.parsed_legal cfg txt c (parseProgram_of hp hb)).wf2 hf hf'
+
+/-! ### Non-vacuity: a let-bounded slice with an EXPLICIT stop, overridden -/
+
+def okTxt : String := "let n 2\nregister r[6]\nmap a r[0:n]\nmap c a[1:n]\nfoo c\n"
+
+/-- the side condition holds of `okTxt`, fails of the witness; both runs succeed and apply `foo` to `[r[1], r[2], r[3]]` -/
+def okCheck : Bool :=
+  match Parser.parseText okTxt, Parser.parseText witTxt with
+  | .ok sx, .ok wsx =>
+    NoFrozenStop witOv sx && !NoFrozenStop witOv wsx &&
+    match parseBuild {} sx, parseBuild {} (rewriteLets witOv sx) with
+    | .ok c, .ok c' =>
+      match fillInLet witOv c, fillInLet [] c' with
+      | .ok f, .ok f' =>
+        decide (regDens f = .ok [fq [0, 1, 2, 3, 4, 5], fq [0, 1, 2, 3], fq [1, 2, 3]]) &&
+        decide (regDens f' = .ok [fq [0, 1, 2, 3, 4, 5], fq [0, 1, 2, 3], fq [1, 2, 3]]) &&
+        match meaning [] f, meaning [] f' with
+        | .ok s, .ok s' =>
+          decide (s.flat = [("foo", [.reg (fq [1, 2, 3])])]) && decide (s'.flat = [("foo", [.reg (fq [1, 2, 3])])])
+        | _, _ => false
+      | _, _ => false
+    | _, _ => false
+  | _, _ => false
+
+theorem C05_text_example : okCheck = true := by decide +kernel
+
+/-- the side condition is sufficient, NOT necessary: `let n 4; register r[n]; map a r[1:]; foo a` with `n = 6` fails it (the
+source `r` depends on `n`), yet the stop of `a` is stored as the `Constant` `n` itself (`r.size` of a fundamental register)
+and both sides apply `foo` to `[r[1], …, r[5]]` -/
+def fundTxt : String := "let n 4\nregister r[n]\nmap a r[1:]\nfoo a\n"
+
+def fundCheck : Bool :=
+  match Parser.parseText fundTxt with
+  | .ok sx =>
+    !NoFrozenStop [("n", .int 6)] sx &&
+    match parseBuild {} sx, parseBuild {} (rewriteLets [("n", .int 6)] sx) with
+    | .ok c, .ok c' =>
+      match fillInLet [("n", .int 6)] c, fillInLet [] c' with
+      | .ok f, .ok f' =>
+        match meaning [] f, meaning [] f' with
+        | .ok s, .ok s' =>
+          decide (s.flat = [("foo", [.reg (fq [1, 2, 3, 4, 5])])]) && decide (s'.flat = [("foo", [.reg (fq [1, 2, 3, 4, 5])])])
+        | _, _ => false
+      | _, _ => false
+    | _, _ => false
+  | _ => false
+
+theorem C05_text_side_not_necessary : fundCheck = true := by decide +kernel
+
 end Jaqal.FillIn
 
 #print axioms Jaqal.FillIn.C05_text_witness
 #print axioms Jaqal.FillIn.C05_text_refuted
+#print axioms Jaqal.FillIn.C05_text_builder
+#print axioms Jaqal.FillIn.C05_text_partial
+#print axioms Jaqal.FillIn.C05_text_partial_registers
+#print axioms Jaqal.FillIn.C05_text_of_reval
+#print axioms Jaqal.FillIn.C05_text_example
+#print axioms Jaqal.FillIn.C05_text_side_not_necessary
